@@ -1435,12 +1435,10 @@ theorem eval_A (env : Env) (fuel : Nat) : GA (eval env fuel) := by
       have := finish_A ih (fun hd => programMatch_A hf hb hd)
         (by have := programMatch_rel (L env) hf.log fuel unit main0 s; rw [hb] at this; exact this) hfin
       intro hD
-      have h2 : ARel s o1 s2 := this hD
-      show ARel s (programConvert o1) s2
-      unfold ARel at h2 ⊢
+      show ARel s (programConvert o1) (programExit env s (programConvert o1) s2)
       cases o1 with
-      | none => exact h2
-      | tree t => exact h2
+      | none => exact this hD
+      | tree t => exact this hD
       | raise e => cases e <;> trivial
     · inj3 heq
       exact (commentNew_A (o := (commentNew env s).1) (s' := (commentNew env s).2) rfl).1
